@@ -14,10 +14,19 @@ import (
 )
 
 // readOnlyBattery runs every read-only operation on m and returns a digest of the results.
-func readOnlyBattery(m map[string]interface{}, path, key string) string {
+func readOnlyBattery(m map[string]interface{}, path, key string, subs ...string) string {
 	mv := mxj.Map(m)
 	var parts []string
 	add := func(s string) { parts = append(parts, s) }
+	if len(subs) > 0 {
+		// the sub-key forms of the queries (their filters work on the slices being returned)
+		vs, err := mv.ValuesForKey(key, subs...)
+		add(sortedList(encList(vs)) + fmt.Sprint(err != nil))
+		vs, err = mv.ValuesForPath(path, subs...)
+		add(sortedList(encList(vs)) + fmt.Sprint(err != nil))
+		ex, _ := mv.Exists(path, subs...)
+		add(fmt.Sprint(ex))
+	}
 	vs, err := mv.ValuesForKey(key)
 	add(sortedList(encList(vs)) + fmt.Sprint(err != nil))
 	vs, err = mv.ValuesForPath(path)
@@ -79,12 +88,16 @@ func c17Exec(op string) string {
 	path := c.str()
 	key := c.str()
 	doc := c.str()
+	var subs []string
+	if c.pos < len(c.toks) {
+		subs = c.strList()
+	}
 	if c.err != nil {
 		return "bad-op " + c.err.Error()
 	}
 	notes := []string{}
 	before := deepCopy(m)
-	readOnlyBattery(m, path, key)
+	readOnlyBattery(m, path, key, subs...)
 	if !deepEq(before, m) {
 		notes = append(notes, "a read-only operation modified its receiver")
 	}
@@ -115,7 +128,12 @@ func c17Describe(op string) string {
 	m := c.mapVal()
 	path := c.str()
 	key := c.str()
-	return fmt.Sprintf("all read-only operations on map=%s path=%q key=%q, then Copy + scribble", jsonOf(m), path, key)
+	c.str()
+	var subs []string
+	if c.pos < len(c.toks) {
+		subs = c.strList()
+	}
+	return fmt.Sprintf("all read-only operations on map=%s path=%q key=%q subkeys=%q, then Copy + scribble", jsonOf(m), path, key, subs)
 }
 
 func c17Judge(op, impl, model string) Verdict {
@@ -140,12 +158,32 @@ func c17Gen(r *Rng, n int) []string {
 		cfg.Keys = keyAlpha
 		cfg.WideP = 1
 		m := r.RootMap(&cfg)
+		path := r.DerivedPath(m, true, 3)
+		var subs []string
+		if r.P(50) {
+			subs = genSubkeys(r, m, ":")
+		}
+		if r.P(20) {
+			// records with an identifying member under (possibly indexed) list-valued keys; the
+			// sub-key condition rejects some members and accepts others, in every position
+			n := 2 + r.Intn(4)
+			recs := func() []interface{} {
+				var l []interface{}
+				for i := 0; i < n; i++ {
+					l = append(l, map[string]interface{}{"id": fmt.Sprint(i % 3), "v": r.Pick(strAlpha)})
+				}
+				return l
+			}
+			m = map[string]interface{}{"a": []interface{}{map[string]interface{}{"parts": recs(), "k": "x"}, map[string]interface{}{"parts": recs()}}, "parts": recs()}
+			path = r.Pick([]string{"a[0].parts", "a[1].parts", "a.parts", "parts", "a[0].parts[1]", "*.parts", "a[0].*", "a.*"})
+			subs = []string{r.Pick([]string{"id:0", "id:1", "id:2", "!id:0", "id:*", "v:x"})}
+		}
 		g := c01Gen0
 		g.SeqShape = true
 		g.MaxDepth = 2
 		var sb strings.Builder
 		r.render(r.xmlDoc(&g), &sb)
-		ops = append(ops, fmt.Sprintf("implonly readonly %s %s %s %s", enc(m), encStr(r.DerivedPath(m, true, 3)), encStr(r.Pick(keyAlpha)), encStr(sb.String())))
+		ops = append(ops, fmt.Sprintf("implonly readonly %s %s %s %s %s", enc(m), encStr(path), encStr(r.Pick(keyAlpha)), encStr(sb.String()), encStrList(subs)))
 	}
 	return ops
 }
@@ -163,6 +201,7 @@ func c17Stress(r *Rng, tier string, res *Result) {
 		shared := r.RootMap(&cfg)
 		path := r.DerivedPath(shared, true, 3)
 		key := r.Pick(keyAlpha)
+		subs := genSubkeys(r, shared, ":")
 		g := c01Gen0
 		g.MaxDepth = 2
 		var sb strings.Builder
@@ -181,7 +220,7 @@ func c17Stress(r *Rng, tier string, res *Result) {
 				x, _ := ms.Xml()
 				s += string(x)
 			}
-			return s + readOnlyBattery(shared, path, key)
+			return s + readOnlyBattery(shared, path, key, subs...)
 		}
 		want := seqWork()
 		const workers = 8
